@@ -27,6 +27,8 @@ import tempfile
 from ..ctx import MachineryError, ROOT
 from ..drv import signing as SG
 from ..drv import x02_attr as XA
+from ..drv import x02_annot as XN
+from ..drv import script as SC
 from ..par import NPROC
 
 FINDINGS = os.path.join(ROOT, "ext", "X02_findings.json")
@@ -145,7 +147,7 @@ def _judge_state(rec, st, last):
         det = {"coin": coin, "shape": shape, "nout": rec["nout"], "hist": rec["hist"], "pos": pos, "expected": exp, "report": rep,
                "annotated": ann}
         for call, text in sorted(rep["exc"].items()):
-            fails.append(("X02|who_signed|exception=%s|call=%s|%s" % (text.split(":")[0], call, cls),
+            fails.append(("X02|who_signed|exception=%s|call=%s|%s" % (text.split(":")[0], call, feat or "-"),
                           "%s(tx, %d) raised %s" % (call, pos, text), det))
         if "pairs" in rep:
             got = rep["pairs"]
@@ -171,7 +173,7 @@ def _judge_state(rec, st, last):
                                       pos, rep["addr"], want), det))
         if ann is not None:
             if "exc" in ann:
-                fails.append(("X02|annotate|exception=%s|%s" % (ann["exc"].split(":")[0], cls),
+                fails.append(("X02|annotate|exception=%s%s" % (ann["exc"].split(":")[0], "|" + feat if feat else ""),
                               "annotate_scripts(tx, %d) raised %s" % (pos, ann["exc"]), det))
             else:
                 want = sorted([k, XA.type_text(b)] for k, b in exp)
@@ -252,7 +254,9 @@ def attr_replay_records(records, procs=NPROC):
 def stage_attr_model(ctx):
     q = ctx.quick
     ctx.tlc("X02_MC_Attribution", "X02_MC_Attribution_dev", workers=4, timeout=1200)
-    ctx.tlc("X02_MC_Attribution", "X02_MC_Attribution_model_q" if q else "X02_MC_Attribution_model_t", coverage=not q, timeout=3000)
+    for cfg in (["X02_MC_Attribution_model_q"] if q else ["X02_MC_Attribution_model_t", "X02_MC_Attribution_model_t2"]):
+        ctx.tlc("X02_MC_Attribution", cfg, coverage=not q, timeout=3000,
+                require_actions=() if q else ("MSign", "MEdit"))
     # vacuity: the corners the lemmas speak about are reachable (TLC must find the "never" claims violated)
     for inv in ("NeverPartialLoss", "NeverSurvivesTransplant", "NeverSurvivesRetag"):
         r = ctx.tlc("X02_MC_Attribution", "X02_MC_Attribution_reach_" + inv, expect_ok=False, count=False, workers=4, timeout=1200)
@@ -263,7 +267,7 @@ def stage_attr_model(ctx):
 def stage_attr_replay(ctx, J):
     q = ctx.quick
     for cfg in (["X02_MC_Attribution_replay_q", "X02_MC_Attribution_replay_light_q", "X02_MC_Attribution_replay_deep_q"] if q else
-                ["X02_MC_Attribution_replay_t", "X02_MC_Attribution_replay_deep_t"]):
+                ["X02_MC_Attribution_replay_t", "X02_MC_Attribution_replay_light_t", "X02_MC_Attribution_replay_deep_t"]):
         if getattr(ctx, "cfg_only", None) and ctx.cfg_only not in cfg:
             continue
         recs = []
@@ -331,7 +335,7 @@ def validate_attr_traces(ctx, traces):
 
 
 def stage_attr_trace(ctx, J):
-    n = 480 if ctx.quick else 6000
+    n = 320 if ctx.quick else 6000
     seeds = [ctx.seed * 1000003 + 7919 * i + 11 for i in range(n)]
     import multiprocessing as mp
     chunks = [seeds[i::NPROC] for i in range(NPROC)]
@@ -360,7 +364,7 @@ def stage_attr_trace(ctx, J):
             cc = "forkid" if t["coin"] in FORKID else "plain"
             cls = feat if feat else "coin=%s|%s" % (cc, state)
             if exc:
-                key = "X02|trace|who_signed|exception=%s|%s" % (exc.split(":")[0], cls)
+                key = "X02|trace|who_signed|exception=%s|%s" % (exc.split(":")[0], feat or "-")
             else:
                 gk, wk = set(map(tuple, got[pos])), set(map(tuple, w or []))
                 rel = "missing" if gk < wk else "invented" if gk > wk else "other"
@@ -384,7 +388,382 @@ def stage_attr_trace(ctx, J):
     ctx.selftest("attr_trace_rejects_corrupted_report", v[0][0] == 0 and v[1][0] == 3 and v[2][0] == 1)
 
 
-STAGES = [("attr_model", stage_attr_model), ("attr_replay", stage_attr_replay), ("attr_trace", stage_attr_trace)]
+# =================================================================== (b) annotation: spec -> code
+
+def _ann_case(sig, pk, wit=(), amount=0, **kw):
+    return SC.mk_case("spend", bytes(sig), bytes(pk), [bytes(w) for w in wit], flags=["P2SH", "WITNESS"], amount=amount, **kw)
+
+
+def _ann_enum_chunk(recs):
+    out = []
+    for rec in recs:
+        case = _ann_case(rec["sig"], rec["pk"])
+        tx, idx = XN.tx_of_case(case)
+        obs = XN.observe(tx, idx)
+        lst = rec["lst"]
+        fl = XN.judge(lst, obs)
+        cls = (lst["status"], lst["err"], lst["endphase"], len(lst["fail"]), bool(lst["rest"]), bool(lst["keys"] or lst["sigs"]))
+        out.append((fl, cls))
+    return out
+
+
+def _ann_report(ctx, J, stage, rec_or_case, fl, detail):
+    for suffix, what in fl:
+        J.fail("X02|annotate|" + suffix, "%s: %s" % (stage, what), detail)
+
+
+def stage_ann_enum(ctx, J):
+    from ..par import pmap, split
+    cfgs = ["X02_MC_AnnotateEnum_q", "X02_MC_AnnotateEnum_q3"] if ctx.quick else ["X02_MC_AnnotateEnum_t"]
+    for cfg in cfgs:
+        recs = []
+        ctx.tlc("X02_MC_AnnotateEnum", cfg, on_record=lambda r: recs.append(r) if r.get("k") == "lst" else None,
+                keep_records=False, timeout=3000)
+        if not recs:
+            raise MachineryError("no listing printed by %s" % cfg)
+        res = [x for ch in pmap(_ann_enum_chunk, split(recs, NPROC * 4), chunk=1) for x in ch]
+        nf = 0
+        for rec, (fl, cls) in zip(recs, res):
+            ctx.case(("ann_enum",) + cls)
+            if fl:
+                nf += 1
+                _ann_report(ctx, J, "enumerated spend scriptSig=%s scriptPubKey=%s" % (bytes(rec["sig"]).hex(), bytes(rec["pk"]).hex()), rec, fl,
+                            {"sig": rec["sig"], "pk": rec["pk"], "listing": rec["lst"]})
+        ctx.replayed += len(recs)
+        ctx.action("ann_enum." + cfg, len(recs))
+        ctx.log("compared %d enumerated listings of %s with annotate_scripts: %d disagree" % (len(recs), cfg, nf))
+        ctx.sample({"listing": {"sig": recs[len(recs) // 3]["sig"], "pk": recs[len(recs) // 3]["pk"],
+                                "rows": [[r["pc"], r["op"]] for r in recs[len(recs) // 3]["lst"]["exec"]]}})
+    # binding self-test (canned observation): a listing with a wrong offset, a wrong tail, a wrong text must be rejected
+    lst = {"status": "fail", "err": "VERIFY", "need": [], "endphase": "pk",
+           "exec": [{"pc": 0, "op": 0, "data": [[]], "ok": True, "phase": "sig", "ispush": False, "names": ["OP_0"], "alias": []}],
+           "fail": [{"pc": 0, "op": 105, "data": [], "ok": True, "phase": "pk", "ispush": False, "names": ["OP_VERIFY"], "alias": []}],
+           "rest": [{"pc": 1, "op": 1, "data": [[7]], "ok": True, "phase": "pk", "ispush": True, "names": [], "alias": ["OP_7"]}],
+           "keys": [], "sigs": [], "loose": []}
+
+    def ob(rows):
+        return {"rows": [{"pc": a, "op": b, "shown": XN.shown_data(t), "text": t, "sec": False, "sig": False, "pre": []} for a, b, t in rows],
+                "exc": None, "v0": "fail", "v1": "fail", "changed": False}
+    good = XN.judge(lst, ob([(0, 0, "OP_0"), (0, 105, "OP_VERIFY"), (1, 1, "OP_7")]))
+    good2 = XN.judge(lst, ob([(0, 0, "OP_0"), (0, 105, "OP_VERIFY")]))
+    b1 = XN.judge(lst, ob([(0, 0, "OP_0"), (1, 1, "OP_7"), (0, 105, "OP_VERIFY")]))
+    b2 = XN.judge(lst, ob([(0, 0, "OP_0"), (0, 105, "OP_VERIFY"), (1, 1, "OP_8")]))
+    b3 = XN.judge(lst, ob([]))
+    ctx.selftest("ann_replay_rejects_corrupted_listing", not good and not good2 and any("rows|tail" in f[0] for f in b1)
+                 and any("text|" in f[0] for f in b2) and any("rows|executed" in f[0] for f in b3))
+
+
+# ------------------------------------------------------------------ cases from a file (X02_AnnotateRun)
+
+def _sig_oracle(c, sig, key, code, sv):
+    if c["sigmode"] == "fixed":
+        return SC.sig_oracle_fixed(sig, key, SC.Z_FIXED)
+    spend, idx = SC.spend_tx_of(c)
+    return SC.sig_oracle_tx(sig, key, code, sv, spend, idx)
+
+
+def annotate_run(ctx, cases, label="", max_rounds=8, workers=16):
+    """cases: MC_ScriptRun-style case dicts (mutated: oracle entries appended); a case carrying "rep" is judged by TLC.
+    -> list of records ("lst" or "jud") aligned with cases"""
+    from ..scriptrun import preseed
+    results = [None] * len(cases)
+    for c in cases:
+        if not c["hashes"]:
+            preseed(c)
+    todo = list(range(len(cases)))
+    for rnd in range(max_rounds):
+        if not todo:
+            break
+        got = {}
+        for lo in range(0, len(todo), 3000):
+            part = todo[lo:lo + 3000]
+            fd, path = tempfile.mkstemp(prefix="vf-x02-cases-", suffix=".json")
+            with os.fdopen(fd, "w") as f:
+                json.dump([{k: v for k, v in cases[i].items() if k in ("sig", "pk", "wit", "flags", "ctx", "hashes", "sigs", "sigmode", "rep")}
+                           for i in part], f)
+            try:
+                r = ctx.tlc("X02_AnnotateRun", "X02_AnnotateRun", workers=workers, env={"CASES_FILE": path}, timeout=3000)
+            finally:
+                os.unlink(path)
+            for rec in r.records:
+                if isinstance(rec, dict) and rec.get("k") in ("lst", "jud", "need"):
+                    got[part[rec["id"] - 1]] = rec
+        if len(got) != len(todo):
+            raise MachineryError("X02_AnnotateRun %s: %d cases in, %d verdicts out" % (label, len(todo), len(got)))
+        nxt = []
+        for i in todo:
+            rec = got[i]
+            if rec["k"] != "need":
+                results[i] = rec
+                continue
+            nd = rec["need"]
+            c = cases[i]
+            if nd[0] == "hash":
+                x = bytes(nd[2])
+                have = {(e[0], bytes(e[1])) for e in c["hashes"]}
+                for _ in range(24):
+                    if (nd[1], x) in have:
+                        break
+                    have.add((nd[1], x))
+                    y = SC.hash_oracle(nd[1], x)
+                    c["hashes"].append([nd[1], list(x), list(y)])
+                    x = y
+            else:
+                pairs = [(bytes(nd[1]), bytes(nd[2]))] if nd[0] == "sig" else [(bytes(sg), bytes(ky)) for sg in nd[1] for ky in nd[2]]
+                code, sv = bytes(nd[3]), nd[4]
+                keycode = [] if c["sigmode"] == "fixed" else list(code)
+                have = {(bytes(e[0]), bytes(e[1]), bytes(e[2]), e[4]) for e in c["sigs"]}
+                for sig, key in pairs:
+                    if (sig, key, bytes(keycode), sv) in have or not sig:
+                        continue
+                    have.add((sig, key, bytes(keycode), sv))
+                    c["sigs"].append([list(sig), list(key), keycode, 1 if _sig_oracle(c, sig, key, code, sv) else 0, sv])
+            nxt.append(i)
+        todo = nxt
+    if todo:
+        raise MachineryError("X02_AnnotateRun %s: oracle resolution did not converge for %d cases" % (label, len(todo)))
+    return results
+
+
+def _n_instructions(script):
+    n = pc = 0
+    L = len(script)
+    while pc < L:
+        op = script[pc]
+        n += 1
+        if op < 76:
+            pc += 1 + op
+        elif op == 76:
+            pc += 2 + (script[pc + 1] if pc + 1 < L else 0)
+        elif op == 77:
+            pc += 3 + (script[pc + 1] + 256 * script[pc + 2] if pc + 2 < L else 0)
+        elif op == 78:
+            pc += 5 + (int.from_bytes(script[pc + 1:pc + 5], "little") if pc + 4 < L else 0)
+        else:
+            pc += 1
+    return n
+
+
+def _observe_chunk(cases):
+    out = []
+    for c in cases:
+        tx, idx = XN.tx_of_case(c)
+        out.append(XN.observe(tx, idx))
+    return out
+
+
+def _session_cases(seed, count):
+    """signed (partially / fully, then edited) transactions of X02 (a) as annotate cases, one per input"""
+    rnd = random.Random(seed)
+    out = []
+    while len(out) < count:
+        shape = XA.random_shape(rnd, "BTC")
+        nout = rnd.choice([1, 2, 3])
+        ses = SG.Session("BTC", shape, n_out=nout)
+        allkeys = sorted(set(k for d in shape for k in d["keys"]))
+        for _ in range(rnd.randint(1, 2)):
+            K = allkeys if rnd.random() < 0.5 else sorted(rnd.sample(allkeys, rnd.randint(1, len(allkeys))))
+            ses.sign({"mech": "lookup", "K": K, "I": list(range(1, len(shape) + 1)), "ht": rnd.choice([1, 2, 3, 129, 130, 131]),
+                      "scr": True, "reg": [], "sec": [], "fresh": True, "ic": "none"})
+        tx = ses.tx
+        if rnd.random() < 0.3:
+            tx.txs_out[0].coin_value += 1          # some signatures stop verifying
+        txhex = tx.as_hex()
+        pv = [[bytes(u.script).hex(), u.coin_value] for u in tx.unspents]
+        for i, ti in enumerate(tx.txs_in):
+            c = SC.mk_case("spend", ti.script, bytes(tx.unspents[i].script), list(ti.witness), flags=["P2SH", "WITNESS"],
+                           version=tx.version, locktime=tx.lock_time, sequence=ti.sequence, amount=tx.unspents[i].coin_value,
+                           tx={"hex": txhex, "idx": i, "prevouts": pv}, text=["session", shape[i]["kind"]])
+            out.append(c)
+    return out[:count]
+
+
+def stage_ann_run(ctx, J):
+    from ..ctx import REPO
+    from ..par import pmap, split
+    q = ctx.quick
+    cases = []
+    # 1. the shapes of spends TLC enumerates for C03 (bare / P2SH / witness x leaf x deviation), under the flags annotate uses
+    r = ctx.tlc("MC_SpendShapes", "MC_SpendShapes_quick" if q else "MC_SpendShapes_thorough", count=False, timeout=1200)
+    seen = set()
+    for rec in r.by_kind("shape"):
+        k = (rec["pk"], rec["leaf"], rec["sigk"], rec["witk"])
+        if k in seen:
+            continue
+        seen.add(k)
+        c = SC.concretize(dict(rec, flags=["P2SH", "WITNESS"]))
+        c["text"] = ["shape"] + list(k)
+        cases.append(c)
+    nshape = len(cases)
+    # 2. Bitcoin Core's script vectors, evaluated under the flags annotate uses
+    seen = set()
+    for c, exp, comment in SC.load_core_script_tests(os.path.join(REPO, "tests", "btc", "data", "script_tests.json")):
+        k = (bytes(c["sig"]), bytes(c["pk"]), tuple(bytes(w) for w in c["wit"]))
+        if k in seen or _n_instructions(k[0]) + _n_instructions(k[1]) > 450:
+            continue
+        seen.add(k)
+        c["flags"] = ["P2SH", "WITNESS"]
+        cases.append(c)
+    ncore = len(cases) - nshape
+    # 3. the signed transactions of part (a)
+    cases += _session_cases(ctx.seed * 7919 + 5, 60 if q else 400)
+    res = annotate_run(ctx, cases, label="run")
+    obs = [o for ch in pmap(_observe_chunk, split(cases, NPROC * 4), chunk=1) for o in ch]
+    nf = 0
+    for c, rec, o in zip(cases, res, obs):
+        lst = rec["lst"]
+        fl = XN.judge(lst, o)
+        ctx.case(("ann_run", c["text"][0], lst["status"], lst["err"], lst["endphase"], bool(lst["keys"]), bool(lst["rest"])))
+        if fl:
+            nf += 1
+            _ann_report(ctx, J, "spend %s scriptSig=%s scriptPubKey=%s witness=%s" % (
+                c["text"][:4], bytes(c["sig"]).hex()[:160], bytes(c["pk"]).hex()[:160], [bytes(w).hex()[:40] for w in c["wit"]]), c, fl,
+                {"case": {k: v for k, v in c.items() if k not in ("hashes", "sigs")}, "listing": lst, "observed": o})
+    ctx.replayed += len(cases)
+    ctx.action("ann_run.shapes", nshape)
+    ctx.action("ann_run.core_vectors", ncore)
+    ctx.action("ann_run.session_inputs", len(cases) - nshape - ncore)
+    ctx.log("compared the listings of %d spends (%d shapes, %d Core vectors, %d session inputs) with annotate_scripts: %d disagree" % (
+        len(cases), nshape, ncore, len(cases) - nshape - ncore, nf))
+
+
+# =================================================================== (b) annotation: code -> spec
+
+def _random_spend(rnd, table):
+    """a seeded random spend: stack-aware random scriptPubKey (C03's generator), optionally ending in a signature
+    check over key- / signature-shaped items, optionally wrapped in P2SH / P2WSH, optionally truncated"""
+    from .c03 import _random_script
+    nst = rnd.randint(0, 3)
+    items = [bytes(rnd.choice([0, 1, 2, 0x80]) for _ in range(rnd.choice([0, 1, 1, 2]))) for _ in range(nst)]
+    script = _random_script(rnd, nst)
+    r = rnd.random()
+    if r < 0.25:
+        keys = [bytes(k) for k in table["keys"]]
+        sigs = [bytes(x) for x in table["sigs"]]
+        if rnd.random() < 0.5:
+            script += SC.push_enc(rnd.choice(sigs)) + SC.push_enc(rnd.choice(keys)) + bytes([rnd.choice([172, 172, 173])])
+        else:
+            n = rnd.randint(1, 3)
+            m = rnd.randint(0, n)
+            script += b"\x00" + b"".join(SC.push_enc(rnd.choice(sigs)) for _ in range(m)) + SC.push_int(m) + \
+                b"".join(SC.push_enc(rnd.choice(keys)) for _ in range(n)) + SC.push_int(n) + bytes([rnd.choice([174, 174, 175])])
+        if rnd.random() < 0.3:
+            script = bytes([rnd.choice([0, 81])]) + b"\x63" + script + b"\x67\x51\x68"      # inside a conditional
+    if rnd.random() < 0.08:
+        script += rnd.choice([b"\x4c", b"\x4c\x05\x01", b"\x05\x01\x02", b"\x4d\x01", b"\x4e\x01\x00\x00\x00"])   # a truncated push
+    push = b"".join((SC.push_enc(x) if x else b"\x00") for x in items)
+    if rnd.random() < 0.07:
+        push = rnd.choice([b"\x61", b"\x51\x63", b"\x02\x01"]) + push              # not push-only / unbalanced / truncated
+    w = rnd.random()
+    if w < 0.22:
+        spk = b"\xa9" + SC.push_enc(SC._h160(script)) + b"\x87"
+        return _ann_case(push + SC.push_enc(script), spk, text=["random", "p2sh"])
+    if w < 0.36 and len(script) > 0:
+        import hashlib
+        spk = b"\x00" + SC.push_enc(hashlib.sha256(script).digest())
+        return _ann_case(b"", spk, wit=items + [script], amount=1000, text=["random", "p2wsh"])
+    return _ann_case(push, script, text=["random", "bare"])
+
+
+def _ann_trace_chunk(args):
+    seed, count, with_sessions = args
+    rnd = random.Random(seed)
+    table = SC.make_sig_table(small=True)
+    cases = [_random_spend(rnd, table) for _ in range(count)]
+    if with_sessions:
+        cases += _session_cases(seed + 1, with_sessions)
+    out = []
+    for c in cases:
+        c["sigmode"] = "tx"
+        tx, idx = XN.tx_of_case(c)
+        out.append((c, XN.observe(tx, idx)))
+    return out
+
+
+def _jud_fails(jud, o):
+    """failure (key suffix, what) list from TLC's judgement of reported rows"""
+    fails = []
+    if o["changed"]:
+        fails.append(("readonly|transaction-changed", "annotate_scripts changed the transaction"))
+    if o["v0"] != o["v1"]:
+        fails.append(("verdict-changed|before=%s|after=%s" % (o["v0"], o["v1"]), "check_solution answered %s before and %s after annotate_scripts" % (o["v0"], o["v1"])))
+    if o["v0"] != jud["status"]:
+        fails.append(("interpreter-verdict|spec=%s|pycoin=%s" % (jud["status"], o["v0"]), "check_solution says %s, the consensus specification %s (%s)" % (o["v0"], jud["status"], jud["err"])))
+        return fails
+    ctxs = "verdict=%s|endphase=%s" % (jud["status"], jud["endphase"])
+    if jud["bad"]:
+        what = "executed-rows" if jud["bad"] <= jud["nexec"] else ("tail-after-malformed-push" if jud["malformed_before"] else "tail")
+        fails.append(("rows|%s|%s" % (what, ctxs), "row %d of the reported listing %s is not the instruction the evaluation has there (%s; %d rows carried out, %d with those never reached)" % (
+            jud["bad"] - 1, [(r["pc"], XN.opname(r["op"])) for r in o["rows"]][:40], jud["want"], jud["nexec"], jud["nfull"])))
+    for tw in sorted(jud["textwant"], key=lambda x: x["i"])[:1]:
+        r = o["rows"][tw["i"] - 1]
+        if 1 <= tw["op"] <= 78:
+            d = tw["data"][0] if tw["data"] else None
+            cat = "malformed-push" if d is None else ("push-1-byte=%s" % ("0" if d == [0] else "129" if d == [129] else ">16" if d[0] > 16 else "1..16") if len(d) == 1 else "push")
+        else:
+            cat = "word=%s" % XN.opname(tw["op"])
+        fails.append(("text|%s" % cat, "instruction at offset %d (opcode 0x%02x, pushes %s) is written %r; acceptable: %s" % (
+            r["pc"], tw["op"], tw["data"], r["text"], tw["names"] or (["the bytes"] + tw["alias"]))))
+    for rw in sorted(jud["rolewant"], key=lambda x: x["i"])[:1]:
+        r = o["rows"][rw["i"] - 1]
+        if r["sec"] != rw["key"]:
+            fails.append(("roles|key|%s" % ("missing" if rw["key"] else "invented"), "the item pushed at offset %d: used as a public key by an executed signature check: %s; labelled so: %s" % (r["pc"], rw["key"], r["sec"])))
+        else:
+            fails.append(("roles|signature|invented", "the item pushed at offset %d is not used as a signature by an executed signature check, the listing labels it so" % r["pc"]))
+    return fails
+
+
+def stage_ann_trace(ctx, J):
+    from ..par import pmap
+    n = 1600 if ctx.quick else 16000
+    per = 100
+    chunks = [(ctx.seed * 1000003 + 97 * i + 13, per, 6) for i in range(n // per)]
+    pairs = [x for ch in pmap(_ann_trace_chunk, chunks, chunk=1) for x in ch]
+    cases, obs = [], []
+    nexc = 0
+    for c, o in pairs:
+        ctx.case(None)
+        if o["exc"]:
+            nexc += 1
+            J.fail("X02|annotate|exception=%s" % o["exc"].split(":")[0], "recorded spend %s scriptSig=%s scriptPubKey=%s: annotate_scripts raised %s" % (
+                c["text"], bytes(c["sig"]).hex()[:120], bytes(c["pk"]).hex()[:200], o["exc"]), {"case": {k: v for k, v in c.items() if k not in ("hashes", "sigs")}})
+            continue
+        c["rep"] = [{"pc": r["pc"], "op": r["op"], "shown": r["shown"], "text": r["text"], "sec": r["sec"], "sig": r["sig"]} for r in o["rows"]]
+        cases.append(c)
+        obs.append(o)
+    res = annotate_run(ctx, cases, label="trace")
+    nrej = 0
+    for c, jud, o in zip(cases, res, obs):
+        fl = _jud_fails(jud, o)
+        ctx.case(("ann_trace", c["text"][1], jud["status"], jud["err"], jud["endphase"]), 0)
+        if not fl:
+            ctx.traces += 1
+            continue
+        nrej += 1
+        _ann_report(ctx, J, "recorded spend %s scriptSig=%s scriptPubKey=%s" % (c["text"], bytes(c["sig"]).hex()[:120], bytes(c["pk"]).hex()[:200]), c, fl,
+                    {"case": {k: v for k, v in c.items() if k not in ("hashes", "sigs")}, "judgement": jud})
+    ctx.log("validated %d recorded annotate_scripts listings: %d rejected by the specification, %d raised" % (len(cases), nrej, nexc))
+    ctx.sample({"recorded_listing": {"sig": bytes(cases[0]["sig"]).hex(), "pk": bytes(cases[0]["pk"]).hex(), "rows": [[r["pc"], r["op"], r["text"][:40]] for r in cases[0]["rep"]]}})
+    # binding self-test on canned observations: OP_1 | OP_DUP OP_VERIFY OP_1
+    base = _ann_case(b"\x51", b"\x76\x69\x51")
+    base["sigmode"] = "tx"
+
+    def rep(rows):
+        return [{"pc": a, "op": b, "shown": XN.shown_data(t), "text": t, "sec": False, "sig": False} for a, b, t in rows]
+    good = dict(base, rep=rep([(0, 81, "OP_1"), (0, 118, "OP_DUP"), (1, 105, "OP_VERIFY"), (2, 81, "OP_1")]))
+    b1 = dict(base, rep=rep([(0, 81, "OP_1"), (0, 118, "OP_DUP"), (2, 105, "OP_VERIFY"), (2, 81, "OP_1")]))
+    b2 = dict(base, rep=rep([(0, 81, "OP_1"), (0, 118, "OP_DUP"), (1, 105, "OP_VERIFY"), (2, 81, "OP_2")]))
+    b3 = dict(base, rep=rep([(0, 81, "OP_1"), (0, 118, "OP_DUP"), (1, 105, "OP_VERIFY")]))
+    b4 = json.loads(json.dumps(good))
+    b4["rep"][0]["sec"] = True
+    rr = annotate_run(ctx, [json.loads(json.dumps(x)) for x in (good, b1, b2, b3, b4)], label="selftest", workers=2)
+    ctx.selftest("ann_trace_rejects_corrupted_listing",
+                 rr[0]["bad"] == 0 and not rr[0]["textbad"] and not rr[0]["rolebad"] and rr[1]["bad"] == 3 and rr[2]["textbad"] == [4]
+                 and rr[3]["bad"] == 4 and rr[4]["rolebad"] == [1])
+
+
+STAGES = [("attr_model", stage_attr_model), ("attr_replay", stage_attr_replay), ("attr_trace", stage_attr_trace),
+          ("ann_enum", stage_ann_enum), ("ann_run", stage_ann_run), ("ann_trace", stage_ann_trace)]
 
 
 def run(ctx):
